@@ -3,6 +3,7 @@
   Property theorems only (helper lemmas are in HvProofs/Stream.lean).
 -/
 import HvProofs.Stream
+import HvProofs.Qcow2Stream
 namespace Hv.C08
 open Hv
 
@@ -29,6 +30,114 @@ theorem buffer_size_independent (size a1 a2 : Nat) (rd : Rd) (c : Nat → UInt8)
     (ops : List Op) :
     AS.run rd (AS.init size a1) ops = AS.run rd (AS.init size a2) ops := by
   rw [stream_refines_array size a1 rd c h1 hb1, stream_refines_array size a2 rd c h2 hb2]
+
+/-- **stream_refines_array_at**: the same under the weaker contract `BackendOKAt` — only the requests the buffered
+    layer really issues are constrained: buffer fills `rd off align` (they may run past the end) and in-range
+    whole-block requests. `BackendOK → BackendOKAt` (`BackendOK.at`). -/
+theorem stream_refines_array_at (size align : Nat) (rd : Rd) (c : Nat → UInt8) (ha : 0 < align)
+    (hb : BackendOKAt size align rd c) (ops : List Op) :
+    AS.run rd (AS.init size align) ops = Spec.run c ⟨size, 0⟩ ops :=
+  AS.run_refines_at ops (AS.init size align) (AS.init_inv size align ha) hb
+
+theorem history_independent_at (rd : Rd) (c : Nat → UInt8) (s : AS) (hi : s.Inv rd)
+    (hb : BackendOKAt s.size s.align rd c) (ops : List Op) :
+    AS.run rd s ops = Spec.run c ⟨s.size, s.pos⟩ ops :=
+  AS.run_refines_at ops s hi hb
+
+/-! ### QCOW2 (the other backends: `*_stream_correct` in C02 … C06, C07) -/
+
+open Hv.Qcow2 in
+/-- **qcow2_stream_refines_array**: a QCOW2 stream with a buffer of `align > 0` bytes over an image that is conformant
+    up to the end of its last buffer (`roundUp size align` — `QCow2._read` is not clamped to the disk size, the tables
+    of the clusters in `[size, roundUp size align)` are walked too) behaves as the immutable array `guest` under any
+    access history -/
+theorem qcow2_stream_refines_array (q : QCow2) (align : Nat) (ha : 0 < align)
+    (hc : ConformantTo q (roundUp q.size align)) (b : File) (hb : BackingIs q.backing b) (ops : List Op) :
+    AS.run q.read (AS.init q.size align) ops = Spec.run (q.guest b) ⟨q.size, 0⟩ ops :=
+  stream_correct q align ha hc b hb ops
+
+open Hv.Qcow2 in
+/-- … from any reachable state of the stream -/
+theorem qcow2_history_independent (q : QCow2) (s : AS) (hs : s.size = q.size) (hi : s.Inv q.read)
+    (hc : ConformantTo q (roundUp q.size s.align)) (b : File) (hb : BackingIs q.backing b) (ops : List Op) :
+    AS.run q.read s ops = Spec.run (q.guest b) ⟨q.size, s.pos⟩ ops := by
+  have := AS.run_refines_at (c := q.guest b) ops s hi (by rw [hs]; exact backendOKAt q s.align hi.apos hc b hb)
+  rw [hs] at this
+  exact this
+
+open Hv.Qcow2 in
+/-- two buffer sizes give the same outputs -/
+theorem qcow2_buffer_size_independent (q : QCow2) (a1 a2 : Nat) (h1 : 0 < a1) (h2 : 0 < a2)
+    (hc1 : ConformantTo q (roundUp q.size a1)) (hc2 : ConformantTo q (roundUp q.size a2))
+    (b : File) (hb : BackingIs q.backing b) (ops : List Op) :
+    AS.run q.read (AS.init q.size a1) ops = AS.run q.read (AS.init q.size a2) ops := by
+  rw [stream_correct q a1 h1 hc1 b hb, stream_correct q a2 h2 hc2 b hb]
+
+/-! ### QCOW2 internal snapshots: `QCow2Snapshot.open()`
+
+`snapOpen q s` = `copy.copy` of the image object with the snapshot's L1 table as cached `l1_table`; its stream state is
+`st.reopen` = the active stream's state `st` with `_buf = None` and `seek(0)` (Hv/Qcow2Stream.lean). -/
+
+/-- whatever the active image's stream did before, the snapshot's stream starts as a freshly constructed one -/
+theorem snapshot_stream_fresh (st : AS) : st.reopen = AS.init st.size st.align := AS.reopen_eq st
+
+open Hv.Qcow2 in
+/-- **snapshot_view_independent**: the outputs of any history `ops` on the stream of `snapshot.open()` are those of the
+    immutable array of the snapshot's own guest content (`guest` of `snapImage`: the same image with the snapshot's L1
+    table) read from position 0 — for *any* earlier history on the active image, whose buffer, position and L1 table
+    leave no trace. Both objects share the file handles (`fh`, data file, backing handle). -/
+theorem snapshot_view_independent (q : QCow2) (s : Snap) (align : Nat) (ha : 0 < align)
+    (hc : ConformantTo (q.snapImage s) (roundUp q.size align)) (b : File) (hb : BackingIs q.backing b)
+    (earlier ops : List Op) :
+    AS.run (q.snapOpen s).read (AS.after q.read (AS.init q.size align) earlier).reopen ops
+      = Spec.run ((q.snapImage s).guest b) ⟨q.size, 0⟩ ops :=
+  snapshot_after_history q s align ha hc b hb earlier ops
+
+open Hv.Qcow2 in
+/-- … stated for an arbitrary state of the active stream (reachable or not) -/
+theorem snapshot_view_independent_state (q : QCow2) (s : Snap) (align : Nat) (ha : 0 < align)
+    (hc : ConformantTo (q.snapImage s) (roundUp q.size align)) (b : File) (hb : BackingIs q.backing b)
+    (st : AS) (hsz : st.size = q.size) (hal : st.align = align) (ops : List Op) :
+    AS.run (q.snapOpen s).read st.reopen ops = Spec.run ((q.snapImage s).guest b) ⟨q.size, 0⟩ ops :=
+  snapshot_stream q s align ha hc b hb st hsz hal ops
+
+open Hv.Qcow2 in
+/-- … as an equation between two runs: two different earlier histories, same outputs -/
+theorem snapshot_view_independent_pair (q : QCow2) (s : Snap) (align : Nat) (ha : 0 < align)
+    (hc : ConformantTo (q.snapImage s) (roundUp q.size align)) (b : File) (hb : BackingIs q.backing b)
+    (e1 e2 ops : List Op) :
+    AS.run (q.snapOpen s).read (AS.after q.read (AS.init q.size align) e1).reopen ops
+      = AS.run (q.snapOpen s).read (AS.after q.read (AS.init q.size align) e2).reopen ops := by
+  rw [snapshot_after_history q s align ha hc b hb e1, snapshot_after_history q s align ha hc b hb e2]
+
+open Hv.Qcow2 in
+/-- the object `open()` returns reads exactly like the image with the snapshot's L1 table in its header: `_read`
+    bounds the L1 index by the table in use, not by `header.l1_size` of the active image -/
+theorem snapshot_reads_own_l1 (q : QCow2) (s : Snap) : (q.snapOpen s).read = (q.snapImage s).read := snapOpen_read q s
+
+open Hv.Qcow2 in
+/-- and the active image, meanwhile, still refines *its* array: the two views are independent both ways -/
+theorem active_view_independent (q : QCow2) (align : Nat) (ha : 0 < align)
+    (hc : ConformantTo q (roundUp q.size align)) (b : File) (hb : BackingIs q.backing b) (earlier ops : List Op) :
+    AS.run q.read (AS.init q.size align) (earlier ++ ops)
+      = Spec.run (q.guest b) ⟨q.size, 0⟩ (earlier ++ ops) :=
+  stream_correct q align ha hc b hb _
+
+/-! non-vacuity (objects in HvProofs/Qcow2Stream.lean): the active image shows data in cluster 0, the snapshot's L1
+    table has no L2 table at all; buffers of 1024 bytes, so the last fill runs 548 bytes past the end of the disk -/
+open Hv.Qcow2 in
+example : ConformantTo exImg (roundUp exImg.size 1024) ∧ ConformantTo (exImg.snapImage exSnap) (roundUp exImg.size 1024) :=
+  ⟨conformantToB_sound _ _ (by decide), conformantToB_sound _ _ (by decide)⟩
+
+open Hv.Qcow2 in
+set_option maxRecDepth 100000 in
+example :
+    AS.run exImg.read (AS.init exImg.size 1024) [.seek 510 .set, .read 4, .tell]
+      = [.pos 510, .data [UInt8.ofNat (2046 % 251), UInt8.ofNat (2047 % 251), 0, 0], .pos 514] ∧
+    AS.run (exImg.snapOpen exSnap).read (AS.after exImg.read (AS.init exImg.size 1024) [.seek 510 .set, .read 4]).reopen
+        [.tell, .seek 510 .set, .read 4, .seek (-2) .end_, .read 9]
+      = [.pos 0, .pos 510, .data [0, 0, 0, 0], .pos 1498, .data [0, 0]] := by
+  decide
 
 /-- non-vacuity: the identity backend over a 3-byte array is `BackendOK`, and a concrete
     history evaluates as stated. -/
